@@ -47,6 +47,8 @@ class ExecutionContext:
     on_metric: MetricHook | None
     on_log: LogHook | None
     operation: str | None
+    admitted: bool = False  # breaker.allow() let this call through
+    settled: bool = False  # the breaker has been told how this call ended
 
     @classmethod
     def create(
@@ -102,33 +104,49 @@ def check_breaker(ctx: ExecutionContext) -> None:
         return
 
     decision = ctx.breaker.allow()
+    ctx.admitted = decision.allowed
     ctx.emit_breaker_event(decision.event, decision.state)
 
     if not decision.allowed:
         raise CircuitOpenError(decision.state.value)
 
 
+def ensure_settled(ctx: ExecutionContext) -> None:
+    """
+    Release the breaker if an admitted call is ending without having reported.
+
+    Called on every exit path so that no termination (BaseException, nested
+    CircuitOpenError, a raising hook or classifier, cancellation) can leave a
+    half-open probe slot taken forever.
+    """
+    if ctx.admitted and not ctx.settled:
+        record_cancel(ctx)
+
+
 def record_success(ctx: ExecutionContext) -> None:
     """Record success with circuit breaker and emit event if state changed."""
-    if ctx.breaker is None:
+    if ctx.breaker is None or ctx.settled:
         return
 
     event = ctx.breaker.record_success()
+    ctx.settled = True
     ctx.emit_breaker_event(event, ctx.breaker.state)
 
 
 def record_cancel(ctx: ExecutionContext) -> None:
     """Record cancellation with circuit breaker (no event emitted)."""
-    if ctx.breaker is not None:
+    if ctx.breaker is not None and not ctx.settled:
         ctx.breaker.record_cancel()
+        ctx.settled = True
 
 
 def record_failure(ctx: ExecutionContext, klass: ErrorClass) -> None:
     """Record failure with circuit breaker and emit event if state changed."""
-    if ctx.breaker is None:
+    if ctx.breaker is None or ctx.settled:
         return
 
     event = ctx.breaker.record_failure(klass)
+    ctx.settled = True
     ctx.emit_breaker_event(event, ctx.breaker.state, klass)
 
 
